@@ -42,7 +42,7 @@ class C07(Check):
     required_probes = {'thorough': ['array_update', 'wildcard_update', 'node_values', 'edge_update', 'shared_nt']}
 
     def strata(self, tier):
-        return [('S-update_var', 4), ('S-apply-values', 3), ('S-edges', 2), ('S-mixed', 3), ('S-compile-between', 1), ('S-failed-compile', 2)]
+        return [('S-update_var', 4), ('S-apply-values', 3), ('S-edges', 2), ('S-mixed', 3), ('S-compile-between', 1), ('S-failed-compile', 2), ('S-grow-circuit', 2)]
 
     def generate(self, rng, stratum, tier):
         spec = models.gen_aliased(rng, build=rng.choice(['python', 'python', 'yaml']))
@@ -56,8 +56,10 @@ class C07(Check):
         kinds = {'S-update_var': ['one', 'all', 'arr', 'sub'], 'S-apply-values': ['nv', 'nv', 'one', 'ev'],
                  'S-edges': ['edge', 'ev', 'one', 'derive', 'edge'], 'S-compile-between': ['nv', 'ev', 'one', 'all'],
                  'S-failed-compile': ['fc', 'fc', 'one', 'one', 'all', 'sub'],
-                 'S-mixed': ['one', 'all', 'arr', 'sub', 'nv', 'ev', 'edge', 'copy', 'derive', 'adapt', 'adapt', 'fc']}[stratum]
+                 'S-grow-circuit': ['addn', 'all', 'all', 'arr', 'one', 'arr'],
+                 'S-mixed': ['one', 'all', 'arr', 'sub', 'nv', 'ev', 'edge', 'copy', 'derive', 'adapt', 'adapt', 'fc', 'addn']}[stratum]
         derived = False
+        grown = False
         depth = 2 if spec.get('circuits') else 1
         opnames = sorted({o for (_, o) in net.inst})
         if depth == 2 and stratum in ('S-edges', 'S-mixed', 'S-update_var') and rng.random() < 0.35:
@@ -81,7 +83,7 @@ class C07(Check):
             have = [n for n in nodes if (n, opn) in net.inst]
             on = rng.choice(['T', 'D']) if derived else 'T'
             if k == 'derive':
-                if not derived and depth == 1 and len(nodes) >= 2:
+                if not derived and not grown and depth == 1 and len(nodes) >= 2:
                     pairs = [(a, b) for a in nodes for b in nodes
                              if not any(e[0].startswith(a + '/') and e[1].startswith(b + '/') for e in flat_edges)]
                     if pairs:
@@ -91,6 +93,8 @@ class C07(Check):
                                                              f"{b}/{ob}/{models.LIB[ib['lib']]['in']}",
                                                              {'weight': rng.randint(-40, 40) / 16 or 0.5}]})
                         derived = True
+            elif k == 'adapt' and grown:
+                continue
             elif k == 'adapt':
                 ops.append({'op': 'adapt', 'by_path': rng.random() < 0.6, 'node': rng.choice(have), 'opn': opn, 'var': var,
                             'val': val(), 'on': on})
@@ -138,6 +142,17 @@ class C07(Check):
                                 'edge_vars': [[e[0], e[1], {'weight': rng.randint(-40, 40) / 16 or 0.5}]]})
             elif k == 'copy':
                 ops.append({'op': 'deepcopy_continue'})
+            elif k == 'addn':
+                # the circuit grows IN PLACE: a further node carrying the node template of an existing node (as it is now);
+                # wildcard overrides issued afterwards address the new node too, earlier ones did not
+                if depth == 1 and not derived and not any(o['op'] in ('derive', 'derive_circuits') for o in ops) and len(nodes) < 7:
+                    like = rng.choice(nodes)
+                    new = f'zn{j}'
+                    ops.append({'op': 'add_node', 'like': like, 'name': new})
+                    net.clone_node(like, new)
+                    flat_nodes[new] = flat_nodes[like]
+                    nodes.append(new)
+                    grown = True
             elif k == 'fc':
                 # a compile of T itself (not in place) that FAILS inside code generation: disk error while the source file is
                 # written, or an interruption at an arbitrary internal call.  It must leave nothing behind that outlives it:
@@ -282,6 +297,19 @@ class C07(Check):
                     obsv.submit(snapshot(w.objs[name_]), 'obs_both')
                     expected.append((f'after op #{k} adapt_circuit (source must be unchanged): circuit {name_}',
                                      copy.deepcopy(rf_), None))
+            elif op['op'] == 'add_node':
+                try:
+                    T_ = w.objs['T']
+                    T_.update_template(nodes={op['name']: T_.nodes[op['like']]}, in_place=True)
+                except Exception as e:
+                    res['violations'].append({'law': 'L-op', 'cls': 'loud', 'key': 'add_node',
+                                              'detail': f'op #{k} update_template(nodes=..., in_place=True) raised {type(e).__name__}: {e}'})
+                    break
+                ref.clone_node(op['like'], op['name'])
+                flat_nodes[op['name']] = flat_nodes[op['like']]
+                bump('add_node')
+                obsv.submit(snapshot(w.objs['T']), 'obs_both')
+                expected.append((f'after op #{k} add_node {op["name"]} (like {op["like"]})', copy.deepcopy(ref), None))
             elif op['op'] == 'failed_compile':
                 kw = {'in_place': False, 'vectorize': op['vectorize'], 'clear': True, 'float_precision': 'float64'}
                 out = w.do({'op': 'compile', 'obj': 'T', 'api': 'get_run_func', 'kw': kw, 'fault': op['fault']})
